@@ -66,7 +66,7 @@ class C01(RailsProp):
     rule = ("one run = one generated configuration (Colang 1.0 modes rails-only/dialog/single-call/passthrough/embeddings-only/multi-step, or Colang 2.x guardrails library; 0-3 input and output rails, "
             "generated or shipped self-check rails, refusal or rail-exception) and one 1-5 turn conversation with a seeded allow/block/rewrite verdict per (rail, turn). "
             "non-trivial = turns in which an input rail blocked or rewrote, or a turn > 0; distinct = distinct (config class, rail kinds, verdict vector, turn position)")
-    expected_probes = ["input_block", "input_rewrite", "later_turn_checked", "user_text_begins_with_variable_syntax"]
+    expected_probes = ["input_block", "input_rewrite", "later_turn_checked", "user_text_begins_with_variable_syntax", "same_text_as_previous_turn"]
     quick_runs = 420
     thorough_runs = 30000
 
@@ -80,6 +80,11 @@ class C01(RailsProp):
                 if o != "none":
                     turn["options"] = {"output-off": {"rails": {"output": False}}, "input-off": {"rails": {"input": False}}, "log": {"log": {"activated_rails": True}},
                                        "llm-params": {"llm_params": {"temperature": 0.2}}}[o]
+        turns = sc["convs"][0]["turns"]
+        for t in range(1, len(turns)):
+            if d.chance(0.15, "repeat-text", t):
+                # the user says exactly the same thing again: a new message, gated like any other
+                turns[t] = dict(turns[t - 1])
         for t, turn in enumerate(sc["convs"][0]["turns"]):
             if d.chance(0.12, "dollar-text", t):
                 # a user message that begins with variable syntax (a price): it is text like any other
@@ -106,7 +111,10 @@ class C01(RailsProp):
                 continue
             if input_off_before:
                 out.probe("checked_after_options-input-off")
-            RR.check_c01(sc, rec, out, cc + (":after-options-input-off" if input_off_before else ""), generation_clauses=True)
+            if rec.t > 0 and sc["convs"][rec.conv]["turns"][rec.t]["text"] == sc["convs"][rec.conv]["turns"][rec.t - 1]["text"]:
+                out.probe("same_text_as_previous_turn")
+            RR.check_c01(sc, rec, out, cc + (":after-options-input-off" if input_off_before else ""), generation_clauses=True,
+                         text_seen_before=any(sc["convs"][rec.conv]["turns"][k]["tok"] == sc["convs"][rec.conv]["turns"][rec.t]["tok"] for k in range(rec.t)))
             kinds = [k for k in RR.turn_outcome_kinds(sc, rec) if k.startswith("input")]
             if kinds or rec.t > 0:
                 out.nontrivial_sigs.append((cc, tuple(r["kind"] for r in sc["in_rails"]), tuple(sorted(kinds)), rec.t, bool(sc.get("exceptions"))))
